@@ -196,7 +196,9 @@ func parsePossibility(input *input, relation *Relation) error {
 func parseSubstvar(input *input, relation *Relation) error {
 	eatWhitespace(input)
 	input.Next() /* Assert ch == '$' */
-	input.Next() /* Assert ch == '{' */
+	if input.Next() != '{' {
+		return errors.New("A '$' that does not open a ${substvar}")
+	}
 
 	ret := &Possibility{
 		Name:     "",
